@@ -106,6 +106,10 @@ def request_catalogue(world, rng):
                          else {}))
     for d in dests:
         reqs.append(('delete_branch', d, {}))
+        # the same request while the server refuses the deletion of that
+        # branch (branch permissions): the job must refuse and leave the
+        # remote as it was
+        reqs.append(('delete_branch', d, {'server_refuses_deletion': True}))
     reqs.append(('delete_branch', 'development/9.9', {}))
     for k in ('rebuild_queues', 'delete_queues', 'force_merge_queues'):
         reqs.append((k, None, {}))
@@ -123,13 +127,24 @@ def check_admin(world, req, rec, acc, queue_order, real=False):
                     if a.refs.get(n) != b.refs.get(n)}
     tags_changed = {n for n in set(a.tags) | set(b.tags)
                     if a.tags.get(n) != b.tags.get(n)}
-    cls = request_class(kind, arg, kw, b)
+    cls = request_class(kind, arg, kw, b) + (
+        '+refused-by-server' if kw.get('server_refuses_deletion') else '')
     acc.nontrivial('%s|%s|%s|queued=%d|%s' % (kind, cls, st, min(len(qb), 2),
                                               world.queue_mode))
     acc.seen('c20_outcomes', '%s/%s:%s' % (kind, cls, st))
     wit = {'config': world.config(), 'history': list(world.history),
            'request': [kind, arg, kw], 'job': rec_summary(rec)}
     probs = []
+    if kw.get('server_refuses_deletion'):
+        acc.count('c20_deletions_refused_by_the_server')
+        if arg in b.refs and arg not in a.refs:
+            probs.append(('harness: refused deletion went through', arg))
+        elif refs_changed or tags_changed:
+            probs.append(('failed-delete-branch-leaves-partial-effect',
+                          '%s(%s) with the server refusing the deletion -> '
+                          '%s, but refs %s / tags %s changed' % (
+                              kind, arg, st, sorted(refs_changed),
+                              sorted(tags_changed))))
     if st in ('JobFailure', 'NothingToDo', 'NotMyJob'):
         acc.count('c20_refusals_checked')
         if refs_changed or tags_changed:
@@ -273,7 +288,11 @@ def request_class(kind, arg, kw, snap):
 
 def try_in_child(world, req):
     def child():
-        rec = world.run(req[0], req[1], record=False, **req[2])
+        kw = dict(req[2])
+        if kw.pop('server_refuses_deletion', False):
+            world.reject_refs(['refs/heads/' + req[1]])
+        rec = world.run(req[0], req[1], record=False, **kw)
+        world.reject_refs(None)
         out = {'status': rec['status'], 'details': rec['details'],
                'pending': rec['pending'],
                'before': rec['before'].digest(),
@@ -328,6 +347,20 @@ def run_shard(spec, acc):
                         if not t.startswith('tip:q/'):
                             world.do('set_status', ref=t,
                                      state='SUCCESSFUL')
+            if nq and rng.random() < 0.45:
+                # merge what is queued: the q/<version> branches stay behind,
+                # empty (then maybe queue one more PR)
+                heads = world.refs()[0]
+                qs = [n for n in sorted(heads) if n.startswith('q/')]
+                for n in qs:
+                    world.do('set_status', ref='tip:' + n,
+                             state='SUCCESSFUL')
+                plain = [n for n in qs if not n.startswith('q/w/')]
+                if plain:
+                    g.run('commit', 'tip:' + plain[-1])
+                if rng.random() < 0.4:
+                    pr = g.new_pr(rng.choice(g.dests()))
+                    g.queue_pr(pr)
             if rng.random() < 0.4:
                 # an archived branch: delete one destination for real
                 d = g.dests()
@@ -342,7 +375,8 @@ def run_shard(spec, acc):
                     continue
                 acc.merge(res['acc'])
             # apply one for real and go on
-            req = rng.choice(reqs)
+            req = rng.choice([r for r in reqs
+                              if 'server_refuses_deletion' not in r[2]])
             rec = world.run(req[0], req[1], **req[2])
             check_admin(world, req, rec, acc, world._queue_order, real=True)
             for r in world.drain():
